@@ -5,7 +5,7 @@ import vlib
 from vlib import Raw, Def
 import rrcommon as R
 
-VARS = {"plain": 0, "userq": 1, "user": 2, "query": 3, "pipeq": 4}
+VARS = {"plain": 0, "userq": 1, "user": 2, "query": 3, "pipeq": 4, "longq": 5}
 CODECS = [["raw"], ["hash"], ["aes"], ["aesttl"], ["raw", "hash"], ["hash", "aesttl"], ["aes", "raw"], ["aesttl", "hash"]]
 KINDS = ["none", "issued", "trunc", "flip", "otherkey", "garbage"]
 
@@ -15,7 +15,7 @@ def codec_str(c):
 
 
 def consts(maxsteps, asishash=False, asissplit=False, depth=None, advances=(30, 61)):
-    c = {"Keys": Raw('{"a", "b", "c"}'), "Vars": Raw('{"plain", "userq", "pipeq"}'),
+    c = {"Keys": Raw('{"a", "b", "c"}'), "Vars": Raw('{"plain", "userq", "pipeq", "longq"}'),
          "Codecs": Def("{" + ", ".join("<<" + ", ".join('"%s"' % x for x in cd) + ">>" for cd in CODECS) + "}"),
          "Kinds": Raw("{" + ", ".join('"%s"' % k for k in KINDS) + "}"),
          "Advances": Raw("{" + ", ".join(map(str, advances)) + "}"), "MaxSteps": maxsteps, "AsIsHash": asishash, "AsIsSplit": asissplit}
@@ -49,7 +49,7 @@ def seeded(ctx, n, length):
     for i in range(n):
         codec = rng.choice(CODECS)
         keys = R.KEYS[:rng.randint(2, 5)]
-        var = {k: rng.randrange(5) for k in keys}
+        var = {k: rng.randrange(6) for k in keys}
         steps = [{"op": "upsert", "k": k, "v": var[k], "w": rng.choice([1, 2, 5])} for k in keys]
         for _ in range(length):
             x = rng.random()
